@@ -819,6 +819,7 @@ func runC12() {
 		"0x8000000000000000", "0x7FFFFFFFFFFFFFFF", "1__2", "1_", "0_1", ".5e3", "1.e3", "0X1F", "0xe", "0e0", "1..2", "1...2", "1.5.5",
 		"007", "08", "0_8", "1e5", "1E5", "1e+5", "1e-5", ".0", "0.", "0", "1e999", "1e-999", "0.0000001", "1_000.5_5e1_0",
 		"''", "\"\"", "'\\'", "'\\400'", "'\\8'", "'\\xZZ'", "'\\ud800'", "'\\U00110000'", "'\\`'", "'\\?'", "\"\\'\"", "'\\\"'", "'a\nb'", "'ab",
+		"a?.5:b", "ok?.5:foo", "x ?.5", "a?.5?.5:1", "a?.5 + 1", "a? .5:b", "a?.b.5", "a?..5",
 		"a ?. b", "a?.b", "a ? .5 : 1", "a?.?b", "a..b", "a.b.c", "not", "not in", "a not in b", "a not  in b", "a not\tin b", "a not inb", "a not in", "notin",
 		"$x", "_", "é", "\u0663", "a\u00a0b", "a\u2028b", "@", "~", "a\\b", "1a", "1.a", "1e5a", "0xg", "\x00", "\x7f", ""}
 	for _, s := range corpus {
@@ -828,6 +829,9 @@ func runC12() {
 			continue
 		}
 		c.addLexCase(s, toks, err)
+		if err == nil {
+			c.tokensAtPositions(s, toks)
+		}
 		tree, perr, pp := c12SafeParse(s)
 		if pp == nil {
 			c.addLitCase(s, tree, perr)
@@ -856,6 +860,9 @@ func runC12() {
 		if i%2 == 0 {
 			c.addLexCase(s, toks, err)
 		}
+		if err == nil {
+			c.tokensAtPositions(s, toks)
+		}
 		c.note(s, false)
 	}
 
@@ -876,4 +883,38 @@ func c12PrintableASCII(s string) bool {
 		}
 	}
 	return true
+}
+
+// tokensAtPositions: whatever the token list is, every identifier / number / operator / bracket token must spell its
+// value at the line and column it reports, and a string token must start with a quote there (the position clause of
+// the property, judged without an expected token list)
+func (c *c12run) tokensAtPositions(src string, toks []lexer.Token) {
+	lines := strings.Split(src, "\n")
+	for _, t := range toks {
+		if t.Kind == lexer.EOF || t.Value == "" && t.Kind != lexer.String {
+			continue
+		}
+		c.rep.Evaluations++
+		ok := false
+		if t.Line >= 1 && t.Line <= len(lines) {
+			rs := []rune(lines[t.Line-1])
+			if t.Column >= 0 && t.Column <= len(rs) {
+				rest := string(rs[t.Column:])
+				switch t.Kind {
+				case lexer.String:
+					ok = strings.HasPrefix(rest, "\"") || strings.HasPrefix(rest, "'")
+				case lexer.Operator:
+					// `not in` is one operator token whatever the spaces between the words
+					ok = strings.HasPrefix(rest, t.Value) || (t.Value == "not in" && strings.HasPrefix(rest, "not"))
+				default:
+					ok = strings.HasPrefix(rest, t.Value)
+				}
+			}
+		}
+		if !ok {
+			c.rep.fail(Failure{Key: "C12-token-position", What: "a token's reported line and column is not the position of its first character",
+				Input: src, Want: fmt.Sprintf("%q at its own position", t.Value), Got: fmt.Sprintf("%v %q reported at %d:%d", t.Kind, t.Value, t.Line, t.Column), Replay: c12ReplayArg("lex", src)})
+			return
+		}
+	}
 }
